@@ -85,6 +85,7 @@ def plan(prop, tier, seed):
         add(two, K=2 if q else 3, lazies=(True, False))
         add(['chain3ev', 'tbchain3', 'fanin', 'weak3', 'chain3', 'shortcut3'] if q else three, K=2, lazies=(True, False) if not q else (True,))
         add(['tb2', 'tbloop', 'hyb2', 'tb_ev'], K=2 if q else 3, until='symnc', caches=(False,), lazies=(True, False))
+        add(['sibloop', 'sibloop_ev'], K=3, until=2, lazies=(True, False), masks='all', extra={'no_self': ['A', 'B']})
         if not q:
             add(['tb2', 'hyb2', 'weak2', 'tb_ev', 'evloop'], K=2, D=1, lazies=(True, False))
     elif prop == 'C02':
@@ -92,6 +93,8 @@ def plan(prop, tier, seed):
             K=2 if q else 3, lazies=(True, False))
         add(['multi_shift', 'multi_shift_rev'], K=3, lazies=(True,))
         add(['ent2hy', 'async2hy', 'ev2_late', 'selfloop'], K=2 if q else 3)
+        add(['loopfeed'], K=2, until=3, caches=(True,), masks='extremes', extra={'no_self': ['A', 'B'], 'future_outputs': True})
+        add(['sibloop_ev'], K=3, until=2, masks='all', extra={'no_self': ['A', 'B']})
         add(['hyb2', 'ev2', 'tb_ev'], K=2 if q else 3, lazies=(True,), extra={'future_outputs': True})
         add(['chain3ev', 'chain3', 'fanin'] if q else three, K=2)
         add(['hyb2', 'ev2', 'tb2'], K=2 if q else 3, until='symnc', caches=(False,))
@@ -103,6 +106,7 @@ def plan(prop, tier, seed):
         add(['multi_shift', 'multi_tb'], K=3, lazies=(True,))
         add(['ent2', 'ent2x', 'ent2hy'], K=2 if q else 3, lazies=(True, False))
         add(['ent2fan'], K=2)
+        add(['fanout_shift2', 'fanout_shift2r'], K=3, until=3, caches=(True, False), masks='extremes')
         add(['async2', 'selfloop', 'ev2_late'], K=2)
         add(['tb2', 'tbshift', 'tbloop'], K=3 if q else 4, until=4 if q else 5, lazies=(True, False))
         add(['tbshift_sym', 'tb2', 'tbshift'], K=3, until='symnc', caches=(False,), lazies=(True, False))
@@ -118,6 +122,8 @@ def plan(prop, tier, seed):
         add(['chain3ev', 'reenter', 'nested', 'shortcut3'] if q else three, K=2, lazies=(True, False) if not q else (True,))
         add(['tb2', 'hyb2', 'evloop'], K=2 if q else 3, until='symnc', caches=(False,), lazies=(True, False))
         add(['tworoutes', 'tworoutes_flat'], K=2, until=2, caches=(True,), masks='extremes', extra={'no_self': ['A', 'B', 'C', 'D']})
+        add(['weak4'], K=2, until=2, caches=(True,), lazies=(True, False), masks='extremes', extra={'no_self': ['P', 'Q', 'R', 'D']})
+        add(['sibloop', 'loopfeed'], K=2, until=2, caches=(True,), masks='extremes', extra={'no_self': ['A', 'B']})
         if not q:
             add(['hyb2', 'weak2', 'chain3ev'], K=2, D=1)
             add(two, K=2, salts=(1, 2))
@@ -138,6 +144,7 @@ def plan(prop, tier, seed):
         add(['tbchain3', 'fanout', 'chain3'] if q else three, K=2, lazies=(True,))
         add(['fanin', 'fanin_tb'], K=2, lazies=(True,), masks='all', extra={'no_self': ['C']})
         add(['fanin_tb'], K=3, lazies=(True,), caches=(True,), masks='all', extra={'no_self': ['C']})
+        add(['tbtri'], K=3, lazies=(True,), masks='all')
         add(['tb2', 'tb_ev', 'hyb2'], K=2 if q else 3, until='symnc', caches=(False,), lazies=(True,))
         if not q:
             add(['tb2', 'hyb2', 'tb_ev'], K=2, D=1, lazies=(True,))
@@ -193,8 +200,20 @@ def validate_reference(rep, prop):
     rep.side['reference_validation'] = {'scenario_runs': v['runs'], 'steps': v['steps'], 'rule_evaluations': v['rule_evaluations'],
                                         'alarms': len(v['alarms']), 'alarms_not_listed': len(bad), 'test_failures': v['failures'][:5],
                                         'skipped_remote_or_rt': v['skipped']}
-    if bad or v['failures']:
-        rep.harness_error(f'reference validation failed: {bad[:2]} {v["failures"][:2]}')
+    own = [a for a in bad if a['rule'].startswith(prop)]
+    other = [a for a in bad if not a['rule'].startswith(prop)]
+    # an alarm of this property's own rules in a concrete run of a maintainer-blessed scenario is a violation observed on the
+    # real code (on the unchanged tree there is none: that is the validation of the reference)
+    seen = set()
+    for a in own:
+        if (a['rule'], a['scenario']) in seen:
+            continue
+        seen.add((a['rule'], a['scenario']))
+        rep.concrete.append({'rule': a['rule'], 'scenario': a['scenario'], 'cache': a['cache'], 'msg': a['msg']})
+    if v['failures']:
+        rep.harness_error(f'the repository\'s own scenario assertions fail under the oracle proxy: {v["failures"][:2]}')
+    elif other and not own:
+        rep.notes.append(f'reference validation: {len(other)} alarm(s) of other properties\' rules in concrete scenario runs (reported by their own checks): {sorted({a["rule"] for a in other})}')
 
 
 def run_plan(rep, prop, tier, seed, twin=None):
